@@ -950,7 +950,10 @@ fn prepare_auth_with_history(
 fn prepare_new_auth(room: &Room, new_auth: &AuthorisationNode) -> Result<()> {
     let authorisation = new_auth.parse()?;
     for new_user in &new_auth.user_nodes {
-        if !authorisation.can_admin_users(&new_user.node.verifying_key, new_user.node.mdate) {
+        //as for a known authorisation: a user admin of the group, or an admin of the room
+        if !authorisation.can_admin_users(&new_user.node.verifying_key, new_user.node.mdate)
+            && !room.is_admin(&new_user.node.verifying_key, new_user.node.mdate)
+        {
             return Err(Error::InvalidNode(
                 "RoomNode Authorisation new user is not authorised".to_string(),
             ));
